@@ -1,4 +1,4 @@
-import CardVerif.Model.Basic
+import CardModel.Model.Basic
 /-!
 # Gin meld search, lay-offs, ricky hand value
 
